@@ -37,7 +37,65 @@ def plan(ctx):
         items.append(('default-language', engine.stable_hash((ctx.seed, 'c15d', i))))
     for i in range(ctx.n(500, 8000)):
         items.append(('syntax-word-only', engine.stable_hash((ctx.seed, 'c15w', i))))
+    for i in range(ctx.n(300, 5000)):
+        items.append(('fixed-fg-grep-blame', engine.stable_hash((ctx.seed, 'c15f', i))))
     return items
+
+
+def run_fixed_fg_grep_blame(rng):
+    """grep hits and blame code with a style that does not say 'syntax': the configured foreground, whatever the theme."""
+    from .. import corpus
+    lang = rng.choice(sorted(snippets.SNIPPETS))
+    name = rng.choice(snippets.NAMES[lang])
+    code = [l for l in snippets.SNIPPETS[lang] if l.strip()][:rng.randint(2, 6)]
+    how = rng.choice(['rg-json', 'git-grep', 'blame', 'blame'])
+    fgname = rng.choice(FIXED_FG)
+    fg = term.color_of(fgname)
+    attr = rng.choice(['', ' bold', ' italic'])
+    bgname = rng.choice(['#203040', '#402030'])
+    T = gen.TAGS
+    base = {'--paging': 'never', '--true-color': 'always', '--dark': True, '--grep-file-style': T['grep_file'], '--grep-line-number-style': T['grep_ln']}
+    if how == 'blame':
+        base['--blame-code-style'] = '%s %s%s' % (fgname, bgname, attr)
+        if rng.random() < 0.5:
+            base['--default-language'] = snippets.NAMES[lang][0].rsplit('.', 1)[-1]
+    else:
+        base['--grep-match-line-style'] = '%s %s%s' % (fgname, bgname, attr)
+        base['--grep-context-line-style'] = '%s %s%s' % (fgname, bgname, attr)
+        base['--grep-match-word-style'] = '%s %s%s' % (fgname, bgname, attr)
+    sets = {'languages': [lang], 'views': [how], 'sub': ['fixed-fg-grep-blame']}
+    counters = {'cells_compared': 0, 'fixed_fg_cells': 0, 'pairs': 1}
+    for theme in ('none', rng.choice(gen.THEMES_DARK)):
+        opts = dict(base)
+        opts['--syntax-theme'] = theme
+        if how == 'rg-json':
+            text = corpus.rg_json_text([(name, [(10 + i, 'match' if i % 2 == 0 else 'context', c, []) for i, c in enumerate(code)])])
+            r = runner.run_delta(gen.to_args(opts), text.encode())
+        elif how == 'git-grep':
+            text = ''.join('%s:%d:%s\n' % (name, 10 + i, c) for i, c in enumerate(code))
+            r = runner.run_delta(gen.to_args(opts), text.encode(), parent_argv=['git', 'grep', '-n', 'x'])
+        else:
+            text = ''.join('abcd%04d (Ann 2020-01-01 00:00:00 +0000 %d) %s\n' % (i // 2, i + 1, c) for i, c in enumerate(code))
+            r = runner.run_delta(gen.to_args(opts), text.encode(), parent_argv=['git', 'blame', name])
+        c = crash_outcome(r, ID)
+        if c is not None:
+            return c
+        if r.rc != 0:
+            return inconclusive('exit %d: %s' % (r.rc, r.err[:100]), sets=sets)
+        want_bg = term.color_of(bgname)
+        for rw in term.decode(r.out):
+            for c_ in rw.cells:
+                if c_.bg == want_bg and c_.ch.strip():
+                    counters['cells_compared'] += 1
+                    counters['fixed_fg_cells'] += 1
+                    if c_.fg != fg:
+                        o = violated('c15:fixed-fg:%s' % ('blame' if how == 'blame' else 'grep'), 'code painted with a style that does not ask for "syntax" (%s %s%s, theme %s) '
+                                     'does not carry its configured foreground' % (fgname, bgname, attr, theme), repr(fg), repr(c_.fg), run=r, counters=counters, sets=sets)
+                        o['executions'] = 2
+                        return o
+    o = held(sig=('fixed-fg', how, lang, fgname, attr), nontrivial=counters['fixed_fg_cells'] > 0, counters=counters, sets=sets)
+    o['executions'] = 2
+    return o
 
 
 def run_syntax_word_only(rng):
@@ -327,6 +385,8 @@ def run_item(item):
         return run_default_language(rng)
     if kind == 'syntax-word-only':
         return run_syntax_word_only(rng)
+    if kind == 'fixed-fg-grep-blame':
+        return run_fixed_fg_grep_blame(rng)
     lang = rng.choice(sorted(snippets.SNIPPETS))
     names = snippets.NAMES[lang]
     opts, syn, fixed = slot_styles(rng)
